@@ -40,6 +40,7 @@ theorem inv_step (o : ExitOrder) (s : State) (op : Op) (h : Inv o s) : Inv o (st
   case frontDrop i => unfold frontDrop senderDropped State.setPhase; constructor <;> grind [pastClose]
   case frontReadError i => unfold frontReadError slotResult State.setPhase; constructor <;> grind [pastClose]
   case frontTimer i => unfold frontTimer State.setPhase; constructor <;> grind [pastClose]
+  case consumerMsg => unfold consumerMsg; constructor <;> grind [pastClose]
   case sendTake => unfold sendTake; constructor <;> grind [pastClose]
   case sendOk => unfold sendOk; constructor <;> grind [pastClose]
   case sendErr t => unfold sendErr exitLoop; constructor <;> grind [pastClose]
@@ -93,6 +94,7 @@ theorem cinv_step (o : ExitOrder) (s : State) (op : Op) (h : Inv o s) (hc : CInv
   case frontDrop i => unfold frontDrop senderDropped State.setPhase; constructor <;> grind
   case frontReadError i => unfold frontReadError slotResult State.setPhase; constructor <;> grind
   case frontTimer i => unfold frontTimer State.setPhase; constructor <;> grind
+  case consumerMsg => unfold consumerMsg; constructor <;> grind
   case sendTake => unfold sendTake; constructor <;> grind
   case sendOk => unfold sendOk; constructor <;> grind
   case sendErr t =>
@@ -143,6 +145,7 @@ theorem cause_stable_step (o : ExitOrder) (s : State) (op : Op) (h : Inv o s) (c
   case frontDrop i => unfold frontDrop State.setPhase; grind
   case frontReadError i => unfold frontReadError State.setPhase; grind
   case frontTimer i => unfold frontTimer State.setPhase; grind
+  case consumerMsg => unfold consumerMsg; grind
   case sendTake => unfold sendTake; grind
   case sendOk => unfold sendOk; grind
   case sendErr t => unfold sendErr exitLoop; grind
@@ -173,6 +176,7 @@ theorem resolved_stable_step (o : ExitOrder) (s : State) (op : Op) (i : Nat) (r 
   case frontDrop i => unfold frontDrop senderDropped State.setPhase; grind
   case frontReadError i => unfold frontReadError State.setPhase; grind
   case frontTimer i => unfold frontTimer State.setPhase; grind
+  case consumerMsg => unfold consumerMsg; grind
   case sendTake => unfold sendTake; grind
   case sendOk => unfold sendOk; grind
   case sendErr t => unfold sendErr exitLoop; grind
@@ -842,6 +846,7 @@ theorem linv_step (o : ExitOrder) (s : State) (op : Op) (h : Inv o s) (hl : LInv
   case frontDrop i => unfold frontDrop senderDropped State.setPhase; constructor <;> grind [shuttingDown]
   case frontReadError i => unfold frontReadError slotResult State.setPhase; constructor <;> grind [shuttingDown]
   case frontTimer i => unfold frontTimer State.setPhase; constructor <;> grind [shuttingDown]
+  case consumerMsg => unfold consumerMsg; constructor <;> grind [shuttingDown]
   case sendTake => unfold sendTake; constructor <;> grind [shuttingDown]
   case sendOk => unfold sendOk; constructor <;> grind [shuttingDown]
   case sendErr t => unfold sendErr exitLoop; constructor <;> grind [shuttingDown]
